@@ -209,6 +209,9 @@ class Body:
             if c1 != c2:
                 raise Refuse("%s: comparison of iterators into different frames" % self.what)
             return ".%s (%s) (%s)" % (cmp[callee(n)[8:]], a, b)
+        mc = self.member_call(n, {"empty"})
+        if mc:
+            return ".empty .%s" % mc[0]
         if k == "ImplicitCastExpr" and n.get("castKind") == "PointerToBoolean":
             m = peel(ks[0])
             if m.get("kind") == "MemberExpr" and m.get("name") == "eva_t_":
@@ -333,6 +336,9 @@ class Body:
                 return
             if name == "clear" and not a:
                 out.append(".clear .%s" % self.cont(obj))
+                return
+            if name == "clone_schema" and len(a) == 1:      # metadata only (body checked: clone_schema_sets)
+                out.append(".cloneSchema .%s .%s" % (self.cont(obj), self.cont(a[0])))
                 return
             if name == "erase" and len(a) == 2:
                 c = self.cont(obj)
@@ -505,6 +511,7 @@ class Body:
 
 # ---- one clang run per filter, in parallel ----------------------------------------------------
 FILTERS = ["vita::holdout_validation::init", "vita::dss::", "weight", "vita::dataframe::push_back",
+           "vita::dataframe::clone_schema",
            "vita::search::run", "vita::evolution::run", "vita::src_search::validation_strategy"]
 _DUMPS = {}
 
@@ -614,6 +621,33 @@ def push_back_overloads():
             if len(ps) == 1 and "example" in qt(ps[0]):
                 out.append(qt(ps[0]))
     return sorted(set(out))
+
+
+def clone_schema_sets():
+    """`dataframe::clone_schema(const dataframe &other)`: every statement is `member = other.member`"""
+    defs = with_body(dump("vita::dataframe::clone_schema"), "clone_schema")
+    if len(defs) != 1:
+        raise Refuse("dataframe::clone_schema: %d definitions" % len(defs))
+    ps = [p.get("name") for p in X.kids(defs[0]) if p.get("kind") == "ParmVarDecl"]
+    out = []
+    for st in X.kids(body_of(defs[0])):
+        if st.get("kind") == "NullStmt" or is_void0(st):
+            continue
+        e = peel(st)
+        ks = X.kids(e)
+        if e.get("kind") == "CXXOperatorCallExpr" and callee(e) == "operator=" and len(ks) == 3:
+            lhs, rhs = peel(ks[1]), peel(ks[2])
+        elif e.get("kind") == "BinaryOperator" and e.get("opcode") == "=":
+            lhs, rhs = peel(ks[0]), peel(ks[1])
+        else:
+            raise Refuse("dataframe::clone_schema: statement %s" % e.get("kind"))
+        if lhs.get("kind") != "MemberExpr" or peel(X.kids(lhs)[0]).get("kind") != "CXXThisExpr":
+            raise Refuse("dataframe::clone_schema: assignment to something else than a member")
+        src = peel(X.kids(rhs)[0]) if rhs.get("kind") == "MemberExpr" and X.kids(rhs) else {}
+        if rhs.get("kind") != "MemberExpr" or src.get("referencedDecl", {}).get("name") not in ps:
+            raise Refuse("dataframe::clone_schema: right-hand side is not a member of the parameter")
+        out.append((lhs.get("name"), "%s.%s" % (src["referencedDecl"]["name"], rhs.get("name"))))
+    return out
 
 
 # ---- the call protocol -----------------------------------------------------------------------
@@ -771,6 +805,7 @@ def lean_str(s):
 
 SOURCES = ["src/kernel/gp/src/holdout_validation.cc", "src/kernel/gp/src/holdout_validation.h",
            "src/kernel/gp/src/dss.cc", "src/kernel/gp/src/dss.h", "src/kernel/gp/src/dataframe.h",
+           "src/kernel/gp/src/dataframe.cc",
            "src/kernel/gp/src/search.tcc", "src/kernel/gp/src/search.h", "src/kernel/search.tcc", "src/kernel/search.h",
            "src/kernel/evolution.tcc", "src/kernel/evolution.h", "src/kernel/validation_strategy.h",
            "src/kernel/random.h", "src/kernel/log.h", "src/utility/contracts.h", "src/utility/facultative.h",
@@ -853,6 +888,9 @@ def translate():
     L.append("def weightSum : AccE := ⟨.%s, %d, %d, weight⟩" % (c, wd, init))
     L.append("")
     L.append("def selectPred : String := %s" % lean_str(extra["pred"]))
+    L.append("")
+    L.append("def cloneSchemaSets : List (String × String) := [%s]"
+             % ", ".join("(%s, %s)" % (lean_str(a), lean_str(b)) for a, b in clone_schema_sets()))
     L.append("")
     L.append("def pushBackOverloads : List String := [%s]" % ", ".join(lean_str(x) for x in push_back_overloads()))
     L.append("")
